@@ -41,10 +41,17 @@ type Case struct {
 	Mod      string           `json:"mod,omitempty"`
 	Mode     string           `json:"mode,omitempty"`
 	Scribble bool             `json:"scribble"`
+	// Form (Kind "form" only): the header block of the frame as a string of slot
+	// symbols instead of Hdr (non-canonical header blocks, see noncanon.go).
+	Form string `json:"form,omitempty"`
 }
 
 func (c Case) classKey() string {
-	return fmt.Sprintf("%s|%s|%s|%d|%s|%d|%d|%d|%d|%s|%d|%s|%s", c.Codec, c.Dir, c.Kind, c.Class, c.Hdr, c.Body, c.Seed, c.ID, c.NewID, c.Field, c.Val, c.Mod, c.Mode)
+	k := fmt.Sprintf("%s|%s|%s|%d|%s|%d|%d|%d|%d|%s|%d|%s|%s", c.Codec, c.Dir, c.Kind, c.Class, c.Hdr, c.Body, c.Seed, c.ID, c.NewID, c.Field, c.Val, c.Mod, c.Mode)
+	if c.Kind == KindForm {
+		k += "|" + c.Form
+	}
+	return k
 }
 
 // View is the content of a frame as the property speaks about it.
@@ -54,6 +61,10 @@ type View struct {
 	Headers  []vref.KV         // sorted
 	Body     []byte            // what GetData() exposes
 	Fixed    map[string]uint64 // reference parser only: the other fixed fields (never the id, never length fields)
+	// HdrUnknown (reference parser only): the frame's header block has a form for
+	// which the statement does not fix the pairs a codec must expose (a bolt block
+	// with a null KEY): Headers is not compared.
+	HdrUnknown bool
 }
 
 // Adapter is what a codec harness supplies.
@@ -301,6 +312,10 @@ func (r *readBuf) refill() {
 }
 
 func (a *Adapter) key(c Case, what string) string {
+	if c.Kind == KindForm {
+		// names the class of the received header block, never the block itself
+		what = "header-block=" + FormClass(c.Form) + " " + what
+	}
 	if c.Mode != "" {
 		return fmt.Sprintf("codec=%s mode=%s dir=%s %s", a.Codec, c.Mode, c.Dir, what)
 	}
@@ -479,7 +494,7 @@ func viewDiff(want, got View) string {
 	if want.HasClass && got.HasClass && want.Class != got.Class {
 		return fmt.Sprintf("class: want %s, got %s", vref.Short([]byte(want.Class)), vref.Short([]byte(got.Class)))
 	}
-	if !vref.EqualKVs(want.Headers, got.Headers) {
+	if !want.HdrUnknown && !got.HdrUnknown && !vref.EqualKVs(want.Headers, got.Headers) {
 		return fmt.Sprintf("headers: want %s, got %s", vref.DescribeKVs(want.Headers), vref.DescribeKVs(got.Headers))
 	}
 	if !bytes.Equal(want.Body, got.Body) {
@@ -532,6 +547,13 @@ func headerBlock(v View) int {
 
 func modGroup(a *Adapter, mod string) string {
 	switch {
+	case strings.Contains(mod, "+"):
+		// a combined modification: the groups of its parts
+		var gs []string
+		for _, m := range strings.Split(mod, "+") {
+			gs = append(gs, modGroup(a, m))
+		}
+		return strings.Join(gs, "+")
 	case strings.HasPrefix(mod, "body-"):
 		return "body"
 	case strings.HasPrefix(mod, "class-"):
@@ -561,6 +583,17 @@ func apply(a *Adapter, c Case, f api.XFrame, v *View) (ok bool, pan string) {
 		return string(v.Headers[0].K), string(v.Headers[0].V), true
 	}
 	fill := func(n int) string { return string(vref.ASCII(n, 17)) }
+	if strings.Contains(c.Mod, "+") {
+		// combined modification "m1+m2": one after the other on the same frame
+		for _, m := range strings.Split(c.Mod, "+") {
+			c1 := c
+			c1.Mod = m
+			if ok, pan := apply(a, c1, f, v); !ok || pan != "" {
+				return ok, pan
+			}
+		}
+		return true, ""
+	}
 	switch c.Mod {
 	case "set-shorter", "set-equal", "set-longer":
 		k, val, found := first()
